@@ -6,6 +6,7 @@ import (
 	"os"
 	"sync"
 	"sync/atomic"
+	"syscall"
 	"testing"
 	"time"
 
@@ -30,9 +31,59 @@ type Case struct {
 	// API: how the bytes are handed over at the origin: write (default), writev (two buffers), sendfile
 	// (from a file), mixed (rotating)
 	API string `json:"api,omitempty"`
+	// Birth: how the connection came to the engine: "" = AddConn of an established socket, "dial" = DialAsync
+	// (tcp; the origin "onopen" then means: inside the dial callback)
+	Birth string `json:"birth,omitempty"`
 }
 
 const window = 4 * time.Second
+
+// dialPair brings a connection to the engine through DialAsync: the harness listens, the engine dials, the
+// callback gets the connection (inside runs before dialPair returns).
+func dialPair(g *nbio.Engine, sndbuf, rcvbuf int, inside func(*nbio.Conn)) (*nbio.Conn, net.Conn, error) {
+	ln, err := net.Listen("tcp", "127.0.0.1:0")
+	if err != nil {
+		return nil, nil, err
+	}
+	defer ln.Close()
+	type dres struct {
+		c   *nbio.Conn
+		err error
+	}
+	ch := make(chan dres, 1)
+	if err := g.DialAsync("tcp", ln.Addr().String(), func(dc *nbio.Conn, err error) {
+		if err == nil {
+			if sndbuf > 0 {
+				if rc, e := dc.SyscallConn(); e == nil {
+					_ = rc.Control(func(fd uintptr) { _ = syscall.SetsockoptInt(int(fd), syscall.SOL_SOCKET, syscall.SO_SNDBUF, sndbuf) })
+				}
+			}
+			inside(dc)
+		}
+		ch <- dres{dc, err}
+	}); err != nil {
+		return nil, nil, err
+	}
+	_ = ln.(*net.TCPListener).SetDeadline(time.Now().Add(5 * time.Second))
+	peer, err := ln.Accept()
+	if err != nil {
+		return nil, nil, err
+	}
+	if rcvbuf > 0 {
+		_ = peer.(*net.TCPConn).SetReadBuffer(rcvbuf)
+	}
+	select {
+	case r := <-ch:
+		if r.err != nil {
+			peer.Close()
+			return nil, nil, r.err
+		}
+		return r.c, peer, nil
+	case <-time.After(5 * time.Second):
+		peer.Close()
+		return nil, nil, fmt.Errorf("dial callback not invoked within 5 s")
+	}
+}
 
 func apiOf(api string, i int) string {
 	switch api {
@@ -114,6 +165,9 @@ func runCase(c Case) vlib.Result {
 	g.OnWrittenSize(func(conn *nbio.Conn, b []byte, n int) { atomic.AddInt64(&kernelWrites, 1) })
 	var opened int64
 	g.OnOpen(func(conn *nbio.Conn) {
+		if c.Birth == "dial" {
+			return // the connection under test comes from the dial callback
+		}
 		if atomic.AddInt64(&opened, 1) == 1 {
 			target.Store(conn)
 			if c.Origin == "onopen" {
@@ -147,15 +201,32 @@ func runCase(c Case) vlib.Result {
 			vlib.StopEngine(g.Stop, 10*time.Second)
 		}
 	}()
-	a, peer, err := vlib.StreamPair(c.Transport, c.SndBuf, c.RcvBuf)
-	if err != nil {
-		return vlib.Fail("harness: socket pair: %v", err)
+	var nbc *nbio.Conn
+	var peer net.Conn
+	if c.Birth == "dial" {
+		var err error
+		nbc, peer, err = dialPair(g, c.SndBuf, c.RcvBuf, func(dc *nbio.Conn) {
+			target.Store(dc)
+			if c.Origin == "onopen" {
+				doWrites(dc)
+			}
+		})
+		if err != nil {
+			return vlib.Fail("harness: dial pair: %v", err)
+		}
+		res.Classes = append(res.Classes, "birth=dial")
+	} else {
+		a, p, err := vlib.StreamPair(c.Transport, c.SndBuf, c.RcvBuf)
+		if err != nil {
+			return vlib.Fail("harness: socket pair: %v", err)
+		}
+		peer = p
+		nbc, err = g.AddConn(a)
+		if err != nil {
+			return vlib.Fail("harness: AddConn: %v", err)
+		}
 	}
 	defer peer.Close()
-	nbc, err := g.AddConn(a)
-	if err != nil {
-		return vlib.Fail("harness: AddConn: %v", err)
-	}
 	switch c.Origin {
 	case "goroutine":
 		go doWrites(nbc)
@@ -235,6 +306,11 @@ func cells() []Case {
 			for _, o := range Origins {
 				out = append(out, Case{Transport: tr, Mode: m, Origin: o, Sizes: []int{1 << 20, 300000}, SndBuf: 8192, RcvBuf: 8192, PauseMs: 20, ReadChunk: 65536, DelayUs: 0, NPoller: 1})
 			}
+			if tr == "tcp" {
+				for _, o := range []string{"onopen", "goroutine", "timer"} {
+					out = append(out, Case{Transport: tr, Mode: m, Origin: o, Birth: "dial", Sizes: []int{1 << 20, 300000}, SndBuf: 8192, RcvBuf: 8192, PauseMs: 20, ReadChunk: 65536, DelayUs: 0, NPoller: 1})
+				}
+			}
 			for _, o := range []string{"onopen", "goroutine", "ondata"} {
 				out = append(out, Case{Transport: tr, Mode: m, Origin: o, API: "sendfile", Sizes: []int{4 << 20}, SndBuf: 8192, RcvBuf: 8192, PauseMs: 20, ReadChunk: 65536, DelayUs: 0, NPoller: 1})
 			}
@@ -260,6 +336,9 @@ func gen(t *rapid.T) Case {
 	c.DelayUs = rapid.SampledFrom([]int{0, 0, 50, 500, 3000}).Draw(t, "delayus")
 	c.NPoller = rapid.IntRange(1, 3).Draw(t, "npoller")
 	c.API = rapid.SampledFrom([]string{"", "", "writev", "sendfile", "mixed"}).Draw(t, "api")
+	if c.Transport == "tcp" && c.Origin != "ondata" && rapid.IntRange(0, 3).Draw(t, "dialbirth") == 0 {
+		c.Birth = "dial"
+	}
 	if rapid.IntRange(0, 4).Draw(t, "deepfast") == 0 {
 		// deep backlog, autotuned buffers, fast reader (see cells)
 		// every write is bigger than half the 64 KiB coalescing limit, so each one is a queue entry of its own
